@@ -123,6 +123,22 @@ def mesh_expand_specs(ctx):
     return specs
 
 
+def fine_mesh_specs(ctx):
+    """Runs with a tiny specified (or no) noise that go on until the mesh is very fine (2^-16 and below): poll candidates then lie within
+    ~1e-5 relative of points evaluated earlier."""
+    from .. import gen
+    rng = ctx.sub_rng("c14fine")
+    specs = []
+    for mode in (("he", "he", "det") if ctx.quick else ("he", "he", "he", "det", "decl", "he", "det", "he")):
+        sp = gen.make_spec(rng, D=2, mode=mode, geom="box", cons=None, opt_loc="inside", target="quad")
+        sp["c_unit"] = [rng.choice([-0.7, 0.65, 0.8]), rng.choice([0.55, -0.75])]          # internal coordinates of the optimum well away from 0
+        sp["noise"] = 1e-3
+        sp["sd_jitter"] = False
+        sp["options"] = {"max_fun_evals": 170 if mode != "det" else 130, "noise_final_samples": 0}
+        specs.append(sp)
+    return specs
+
+
 def poll_set_level(ctx, rep, only=None):
     """The poll set after the box filter (contraints_check with proj=False, as `_poll_step_` calls it): every surviving row must be one of the
     candidates `incumbent + mesh_size * direction` EXACTLY - candidates that overshoot a hard bound, by however little, are dropped, never
@@ -167,6 +183,7 @@ def poll_set_level(ctx, rep, only=None):
 def run_level(ctx, rep):
     if not getattr(ctx, "_replaying", False):
         runlevel.with_extra(ctx, "c14expand", lambda: mesh_expand_specs(ctx))
+        runlevel.with_extra(ctx, "c14fine", lambda: fine_mesh_specs(ctx))
     traces = runlevel.get_pool(ctx)
     stats = {"polls": 0, "poll_calls": 0, "runs": 0, "nmax_gt_1": 0}
     preqs, owners = [], []
@@ -220,7 +237,16 @@ def run_level(ctx, rep):
         used = []
         u = np.array(e["u"])
         tol = 1e-6 + (0.5 * e["sms"] / e["ms"] if t["hdr"]["opts"].get("force_poll_mesh") else 0.0)
+        olb, oub = np.array(t["hdr"]["orig_lb"], dtype=float), np.array(t["hdr"]["orig_ub"], dtype=float)
         for c in cur["calls"]:
+            # the point the TARGET was evaluated at is the image of the polled internal point (nothing substituted on the way)
+            if c.get("ginv") is not None and c.get("x") is not None:
+                want_x = np.minimum(np.maximum(np.array(c["ginv"], dtype=float).reshape(-1), olb), oub)
+                got_x = np.array(c["x"], dtype=float).reshape(-1)
+                if want_x.shape == got_x.shape and not np.all(np.abs(want_x - got_x) <= 1e-12 * np.maximum(1.0, np.abs(want_x))):
+                    rep.violation("poll_point_form", "function_logger.py:__call__ (poll evaluation)", f"the target was evaluated at {got_x.tolist()} while the polled point "
+                                  f"incumbent + mesh_size * direction maps to {want_x.tolist()}; {tag}", case)
+                    break
             off = (np.array(c["u"]) - u) / e["ms"]
             idx = [i for i, b in enumerate(Bs) if np.allclose(off, b, rtol=0, atol=tol)]
             if not idx:
